@@ -105,6 +105,9 @@ struct WriteState {
     zero_writes: bool,     // the scripted write fault is Ok(0) instead of an error
     zero_calls: usize,
     block_after: Option<usize>, // bytes still accepted before the writer blocks (Pending, waker kept) until `wunblock`
+    intr_after: Option<usize>,  // bytes still accepted before ONE poll_write fails with ErrorKind::Interrupted
+    close_fault: u8,            // 0 = poll_close succeeds; 1 = it fails; 2 = it stays Pending (self-waking never)
+    close_calls: usize,
     wwaker: Option<std::task::Waker>,
 }
 #[derive(Clone, Default)]
@@ -133,7 +136,15 @@ impl AsyncWrite for MockWrite {
             s.wwaker = Some(cx.waker().clone());
             return Poll::Pending;
         }
+        if s.intr_after == Some(0) {
+            s.intr_after = None;
+            return Poll::Ready(Err(io::Error::new(io::ErrorKind::Interrupted, "scripted interrupted write")));
+        }
         let mut n = buf.len();
+        if let Some(b) = s.intr_after {
+            n = n.min(b);
+            s.intr_after = Some(b - n);
+        }
         if let Some(b) = s.block_after {
             n = n.min(b);
             s.block_after = Some(b - n);
@@ -154,7 +165,13 @@ impl AsyncWrite for MockWrite {
         Poll::Ready(Ok(()))
     }
     fn poll_close(self: Pin<&mut Self>, _cx: &mut TaskCx<'_>) -> Poll<io::Result<()>> {
-        Poll::Ready(Ok(()))
+        let mut s = self.0.borrow_mut();
+        s.close_calls += 1;
+        match s.close_fault {
+            1 => Poll::Ready(Err(io::Error::new(io::ErrorKind::BrokenPipe, "scripted close error"))),
+            2 => Poll::Pending,
+            _ => Poll::Ready(Ok(())),
+        }
     }
 }
 
@@ -207,15 +224,44 @@ fn onum<T: std::fmt::Display>(o: Option<T>) -> String {
     }
 }
 fn ups(u: &UserProperties) -> String {
-    let v: Vec<String> = u
+    let pairs: Vec<(&str, &str)> = u.iter().collect();
+    let v: Vec<String> = pairs
         .iter()
         .map(|(k, v)| format!("{}:{}", big(k.as_bytes()), big(v.as_bytes())))
         .collect();
-    if v.is_empty() {
-        "-".into()
-    } else {
-        v.join(",")
+    // every other accessor of the collection must agree with the list of pairs, in order
+    let mut bad: Vec<String> = Vec::new();
+    if u.len() != pairs.len() {
+        bad.push(format!("len={}", u.len()));
     }
+    if u.is_empty() != pairs.is_empty() {
+        bad.push("is_empty".into());
+    }
+    if u.keys().collect::<Vec<_>>() != pairs.iter().map(|p| p.0).collect::<Vec<_>>() {
+        bad.push("keys".into());
+    }
+    if u.values().collect::<Vec<_>>() != pairs.iter().map(|p| p.1).collect::<Vec<_>>() {
+        bad.push("values".into());
+    }
+    for (k, _) in pairs.iter() {
+        let want: Vec<&str> = pairs.iter().filter(|p| p.0 == *k).map(|p| p.1).collect();
+        let got: Vec<&str> = u.get(k).collect();
+        if got != want {
+            bad.push(format!("get({})={}of{}", big(k.as_bytes()), got.len(), want.len()));
+        }
+        if !u.contains_key(k) {
+            bad.push(format!("contains_key({})", big(k.as_bytes())));
+        }
+    }
+    if u.contains_key("\u{1}never-a-key") || u.get("\u{1}never-a-key").next().is_some() {
+        bad.push("absent-key".into());
+    }
+    let mut out = if v.is_empty() { "-".to_string() } else { v.join(",") };
+    if !bad.is_empty() {
+        bad.dedup();
+        out.push_str(&format!("!ACCESSORS[{}]", bad.join(";")));
+    }
+    out
 }
 fn b(x: bool) -> u8 {
     x as u8
@@ -914,6 +960,14 @@ impl World {
                 w.budget = Some(num(args[0]));
                 w.zero_writes = true;
             }
+            "wintr" => {
+                // like werr, but the fault is ONE poll_write failing with ErrorKind::Interrupted; later writes succeed
+                self.wr.0.borrow_mut().intr_after = Some(num(args[0]));
+            }
+            "cfault" => {
+                // poll_close of the write half fails (1) or stays Pending (2); the library never closes the transport
+                self.wr.0.borrow_mut().close_fault = num::<usize>(args[0]) as u8;
+            }
             "rintr" => {
                 // the transport's next read (after what is queued) fails once with ErrorKind::Interrupted
                 self.rd.0.borrow_mut().intr = true;
@@ -1063,6 +1117,29 @@ impl World {
             "spin" => {
                 // batch: <count> operations of one kind started, polled and (optionally) acknowledged
                 self.spin(args);
+            }
+            "pub0s" => {
+                // pub0s <n>: n QoS 0 publishes through handle 0, each polled to completion; prints nothing
+                let n: usize = num(args[0]);
+                for _ in 0..n {
+                    let Some(mut hd) = self.handles.get(&0).cloned() else { break };
+                    let o = publish_opts(&mut self.arena, &["q=0", "t=61"]);
+                    let fut: OpFut = Box::pin(async move { OpOut::Unit(hd.publish(o).await) });
+                    let i = 900_000usize;
+                    self.ops.insert(i, OpTask { fut: Some(fut), flag: new_flag(), polled: false, sub: None });
+                    let mark = self.out.len();
+                    self.poll_op(i, false);
+                    self.settle();
+                    self.poll_op(i, false);
+                    self.settle();
+                    self.out.truncate(mark);
+                    self.ops.remove(&i);
+                    self.wmark = self.wr.0.borrow().out.len();
+                    if self.arena.strs.len() > 4096 {
+                        self.arena.strs.clear();
+                        self.arena.bins.clear();
+                    }
+                }
             }
             "flood" => {
                 // flood <n> <hex>: the same inbound packet n times, one read each (implementation only)
